@@ -438,7 +438,7 @@ fn fillers() -> [E; 3] {
 }
 
 fn minimal() -> Style {
-    Style { paren: Paren::Minimal, index_attrs: false, escape_all: false }
+    Style { paren: Paren::Minimal, index_attrs: false, escape_all: false, ..Default::default() }
 }
 
 fn when_policy(e: &E, st: &Style, effect: Effect) -> String {
@@ -490,9 +490,9 @@ pub fn programs() -> Vec<Prog> {
     let lv = leaves();
     let fill = fillers();
     let min = minimal();
-    let full = Style { paren: Paren::Full, index_attrs: false, escape_all: false };
-    let red = Style { paren: Paren::Redundant, index_attrs: false, escape_all: false };
-    let idx = Style { paren: Paren::Minimal, index_attrs: true, escape_all: false };
+    let full = Style { paren: Paren::Full, index_attrs: false, escape_all: false, ..Default::default() };
+    let red = Style { paren: Paren::Redundant, index_attrs: false, escape_all: false, ..Default::default() };
+    let idx = Style { paren: Paren::Minimal, index_attrs: true, escape_all: false, ..Default::default() };
     let d1: Vec<E> = sh.iter().map(|s| (s.build)(&fill[..])).collect();
     let mut push = |class: &str, label: String, text: String, small: bool, out: &mut Vec<Prog>| {
         out.push(Prog { class: class.to_string(), label, text, small });
@@ -928,7 +928,8 @@ pub fn run(tier: Tier, replay_file: Option<&str>) -> i32 {
         let p = &preps[pi];
         let input = layout(&p.prog.text, &p.toks, lay);
         let mut l = Local::default();
-        let desc = json!({"comments": 0, "layout": ["as-printed", "compact", "token-per-line", "blank-lines"][lay]});
+        let lay_name = ["as-printed", "compact", "token-per-line", "blank-lines"][lay];
+        let desc = json!({"comments": 0, "layout": lay_name});
         sh.run_input(&mut l, p, &input, &[], "", &desc, &cfgs, n == 0 || n == na / 2);
         ctx.merge(l);
     });
@@ -950,7 +951,10 @@ pub fn run(tier: Tier, replay_file: Option<&str>) -> i32 {
         for (ki, kind) in kinds.iter().enumerate() {
             let (input, expect) = insert(&p.prog.text, &p.toks, &[(b, *kind)]);
             let desc = json!({"comments": 1, "boundary": b, "of": p.toks.len(), "kind": format!("{kind:?}"), "between": st});
-            sh.run_input(&mut l, p, &input, &expect, &st, &desc, &cfgs, ki == 1 && (n == 0 || n == nb / 3 || n == nb / 2 || n + 1 == nb));
+            // thorough: the full 30-config grid for the small program set and, on every program,
+            // for the two basic kinds; the other kinds x the 6-config cut on the remaining programs
+            let cs: &[Config] = if p.prog.small || matches!(kind, K::Eol | K::Own) { &cfgs } else { &cfgs6 };
+            sh.run_input(&mut l, p, &input, &expect, &st, &desc, cs, ki == 1 && (n == 0 || n == nb / 3 || n == nb / 2 || n + 1 == nb));
         }
         ctx.merge(l);
     });
@@ -1013,7 +1017,7 @@ pub fn run(tier: Tier, replay_file: Option<&str>) -> i32 {
             "tier": tier.name(),
             "programs": preps.len(),
             "program_space": "operator shapes (39) x leaves (9) in every operand position at depth 1; parent x position x child shape at depth 2; parenthesisation minimal/full/redundant + index-style attributes; 30 single-slot scope forms (+ full 8x6x8 product in thorough); 12 annotation forms; 8 when/unless lists; policy sets of 2 and 3 from a pool of 6 (templates included); 16 hand-written texts. quick = the small set (all depth-1 shapes in 4 styles, one leaf per operand position, three child shapes per parent position in rotation, single-slot scope forms, annotations, cond lists, 9 pairs + 8 triples, hand-written texts)",
-            "comments": {"zero": "4 whitespace layouts (as printed, compact, one token per line, blank lines between tokens)", "one": format!("{} kinds at every token boundary (incl. before the first and after the last token)", kinds.len()), "two": if two { "kinds {Eol,Own}^2 at every pair of boundaries b1<=b2 of the small program set, 6 configs" } else { "not in this tier" }},
+            "comments": {"zero": "4 whitespace layouts (as printed, compact, one token per line, blank lines between tokens)", "one": format!("{} kinds at every token boundary (incl. before the first and after the last token){}", kinds.len(), if two { "; all 30 configs for kinds Eol/Own on every program and for every kind on the small program set, the 6-config cut for the other kinds on the remaining programs" } else { "" }), "two": if two { "kinds {Eol,Own}^2 at every pair of boundaries b1<=b2 of the small program set, 6 configs" } else { "not in this tier" }},
             "comment_kinds": kinds.iter().map(|k| format!("{k:?}")).collect::<Vec<_>>(),
             "configs": format!("{} of line_width {{1,10,40,80,120,1000}} x indent_width {{0,1,2,4,8}}", cfgs.len()),
             "token_boundaries": boundaries,
